@@ -290,7 +290,7 @@ BLOCKED_NAMES = {
                    'remove_nodes_from', 'edges_iter', 'in_edges', 'out_edges', 'in_edges_iter', 'out_edges_iter'],
 }
 FROZEN_NAMES = ['add_node', 'add_nodes_from', 'remove_node', 'remove_nodes_from', 'add_edge', 'add_edges_from', 'remove_edge',
-                'remove_edges_from', 'clear']
+                'remove_edges_from', 'clear', 'clear_edges']
 
 
 def ast_obligations(repo='/repo'):
